@@ -885,6 +885,104 @@ fn show_target(name: &str, v: &Verdict, pipe_names: &[String]) -> String {
     }
 }
 
+/// Step 5 of the oracle, in the property's words: every target that produced output reports the same number of
+/// outputs, per output the same stage kinds / thread-group sizes, the same pipeline state and the same multiset of
+/// (binding name, descriptor kind, count) once static samplers and buffer addresses (known from the declarations) are
+/// put aside.  Used for every mode of compile(): all pipelines, one named pipeline, no pipeline.
+fn compare_reports(results: &[(Tgt, Verdict)], b: &Built, fails: &mut Vec<String>) {
+    let aside: Vec<&str> =
+        b.decls.iter().filter(|d| d.ss || d.kind.contains("Address")).map(|d| d.name.as_str()).collect();
+    let declared: Vec<&str> = b.decls.iter().map(|d| d.name.as_str()).collect();
+    let is_msl = |t: Tgt| t == Tgt::Msl;
+    let produced: Vec<(Tgt, &Vec<PipeInfo>)> =
+        results.iter().filter_map(|(t, v)| if let Verdict::Ok(p) = v { Some((*t, p)) } else { None }).collect();
+    if let Some((t0, p0)) = produced.first() {
+        for (t, p) in &produced[1..] {
+            if p.len() != p0.len() {
+                fails.push(format!("{} built {} pipelines, {} built {}", t0.name(), p0.len(), t.name(), p.len()));
+                continue;
+            }
+            for i in 0..p.len() {
+                let ks = |x: &PipeInfo| x.stages.iter().map(|(s, _, g)| (s.clone(), *g)).collect::<Vec<_>>();
+                if ks(&p[i]) != ks(&p0[i]) {
+                    fails.push(format!("pipeline {}: stages / thread-group sizes differ {} vs {}", i, t0.name(), t.name()));
+                }
+                if p[i].state != p0[i].state {
+                    fails.push(format!("pipeline {}: pipeline state differs {} vs {}", i, t0.name(), t.name()));
+                }
+                // static samplers and buffer addresses are known from the declarations; a reported name goes back to
+                // its declaration even when an exporter appended a counter to it
+                let core = |x: &PipeInfo| {
+                    let mut v: Vec<(String, String, Option<u32>)> = x
+                        .bindings
+                        .iter()
+                        .filter(|b| !aside.contains(&base_name(&b.name, &declared).as_str()))
+                        .map(|b| (b.name.clone(), b.kind.clone(), b.count))
+                        .collect();
+                    v.sort();
+                    v
+                };
+                let (c0, c1) = (core(&p0[i]), core(&p[i]));
+                if c0 != c1 {
+                    let only0: Vec<_> = c0.iter().filter(|x| !c1.contains(x)).collect();
+                    let only1: Vec<_> = c1.iter().filter(|x| !c0.contains(x)).collect();
+                    // Is the whole difference the renaming of declared names that are reserved words of one of the two
+                    // target languages only (HLSL and Metal each rename what is reserved for them; an HLSL cbuffer block
+                    // keeps its name, the Metal global made from it does not)?  Decided from the two RESERVED_NAMES
+                    // tables of the source tree, not from a list of names.
+                    let mut class: Option<&'static str> = None;
+                    if is_msl(*t0) != is_msl(*t) {
+                        let rebase = |c: &Vec<(String, String, Option<u32>)>| {
+                            let mut v: Vec<(String, String, Option<u32>)> =
+                                c.iter().map(|(n, k, cnt)| (base_name(n, &declared), k.clone(), *cnt)).collect();
+                            v.sort();
+                            v
+                        };
+                        if rebase(&c0) == rebase(&c1) {
+                            let explained = RESERVED.with(|(hl, ms)| {
+                                let mut tags: Vec<&'static str> = Vec::new();
+                                for (n, _, _) in only0.iter().chain(only1.iter()) {
+                                    let base = base_name(n, &declared);
+                                    let in_h = hl.contains(&base);
+                                    let in_m = ms.contains(&base);
+                                    let is_cb = b.decls.iter().any(|d| d.name == base && d.kind == "cbuffer");
+                                    if is_cb && in_m {
+                                        tags.push("msl");
+                                    } else if !is_cb && in_h && !in_m {
+                                        tags.push("hlsl");
+                                    } else if !is_cb && in_m && !in_h {
+                                        tags.push("msl");
+                                    } else {
+                                        return None;
+                                    }
+                                }
+                                tags.sort();
+                                tags.dedup();
+                                Some(if tags.len() == 1 { tags[0] } else { "both" })
+                            });
+                            class = explained;
+                        }
+                    }
+                    let what = format!(
+                        "pipeline {}: bindings differ {} vs {}: only {}: {:?}; only {}: {:?}",
+                        i,
+                        t0.name(),
+                        t.name(),
+                        t0.name(),
+                        only0,
+                        t.name(),
+                        only1
+                    );
+                    match class {
+                        Some(c) => fails.push(format!("binding-name-reserved-in-one-target:{}: {}", c, what)),
+                        None => fails.push(what),
+                    }
+                }
+            }
+        }
+    }
+}
+
 fn run_cross(seed: u64, variant: &str, out: &mut Out, hist: &mut Hist) {
     let Some(b) = build(seed, variant) else {
         out.case(&format!("C18.cross\t{}\t{}\t\t\t", seed, variant), "", "SKIP:unknown variant");
@@ -1052,10 +1150,6 @@ fn run_cross(seed: u64, variant: &str, out: &mut Out, hist: &mut Hist) {
         fails.push(format!("HLSL flavours do not succeed together: dx={} vk={} vkba={}", class(dx), class(vk), class(vkba)));
     }
     let has_address = b.decls.iter().any(|d| d.kind.contains("Address"));
-    let aside: Vec<&str> =
-        b.decls.iter().filter(|d| d.ss || d.kind.contains("Address")).map(|d| d.name.as_str()).collect();
-    let declared: Vec<&str> = b.decls.iter().map(|d| d.name.as_str()).collect();
-    let is_msl = |t: Tgt| t == Tgt::Msl;
     if let (Verdict::Ok(d), Verdict::Ok(v), Verdict::Ok(va)) = (dx, vk, vkba) {
         if d.len() != v.len() || d.len() != va.len() {
             fails.push(format!("pipeline counts differ: dx={} vk={} vkba={}", d.len(), v.len(), va.len()));
@@ -1124,93 +1218,7 @@ fn run_cross(seed: u64, variant: &str, out: &mut Out, hist: &mut Hist) {
         }
     }
     // 5. stages, sizes, state, bindings across every target that produced output
-    let produced: Vec<(Tgt, &Vec<PipeInfo>)> =
-        results.iter().filter_map(|(t, v)| if let Verdict::Ok(p) = v { Some((*t, p)) } else { None }).collect();
-    if let Some((t0, p0)) = produced.first() {
-        for (t, p) in &produced[1..] {
-            if p.len() != p0.len() {
-                fails.push(format!("{} built {} pipelines, {} built {}", t0.name(), p0.len(), t.name(), p.len()));
-                continue;
-            }
-            for i in 0..p.len() {
-                let ks = |x: &PipeInfo| x.stages.iter().map(|(s, _, g)| (s.clone(), *g)).collect::<Vec<_>>();
-                if ks(&p[i]) != ks(&p0[i]) {
-                    fails.push(format!("pipeline {}: stages / thread-group sizes differ {} vs {}", i, t0.name(), t.name()));
-                }
-                if p[i].state != p0[i].state {
-                    fails.push(format!("pipeline {}: pipeline state differs {} vs {}", i, t0.name(), t.name()));
-                }
-                // static samplers and buffer addresses are known from the declarations; a reported name goes back to
-                // its declaration even when an exporter appended a counter to it
-                let core = |x: &PipeInfo| {
-                    let mut v: Vec<(String, String, Option<u32>)> = x
-                        .bindings
-                        .iter()
-                        .filter(|b| !aside.contains(&base_name(&b.name, &declared).as_str()))
-                        .map(|b| (b.name.clone(), b.kind.clone(), b.count))
-                        .collect();
-                    v.sort();
-                    v
-                };
-                let (c0, c1) = (core(&p0[i]), core(&p[i]));
-                if c0 != c1 {
-                    let only0: Vec<_> = c0.iter().filter(|x| !c1.contains(x)).collect();
-                    let only1: Vec<_> = c1.iter().filter(|x| !c0.contains(x)).collect();
-                    // Is the whole difference the renaming of declared names that are reserved words of one of the two
-                    // target languages only (HLSL and Metal each rename what is reserved for them; an HLSL cbuffer block
-                    // keeps its name, the Metal global made from it does not)?  Decided from the two RESERVED_NAMES
-                    // tables of the source tree, not from a list of names.
-                    let mut class: Option<&'static str> = None;
-                    if is_msl(*t0) != is_msl(*t) {
-                        let rebase = |c: &Vec<(String, String, Option<u32>)>| {
-                            let mut v: Vec<(String, String, Option<u32>)> =
-                                c.iter().map(|(n, k, cnt)| (base_name(n, &declared), k.clone(), *cnt)).collect();
-                            v.sort();
-                            v
-                        };
-                        if rebase(&c0) == rebase(&c1) {
-                            let explained = RESERVED.with(|(hl, ms)| {
-                                let mut tags: Vec<&'static str> = Vec::new();
-                                for (n, _, _) in only0.iter().chain(only1.iter()) {
-                                    let base = base_name(n, &declared);
-                                    let in_h = hl.contains(&base);
-                                    let in_m = ms.contains(&base);
-                                    let is_cb = b.decls.iter().any(|d| d.name == base && d.kind == "cbuffer");
-                                    if is_cb && in_m {
-                                        tags.push("msl");
-                                    } else if !is_cb && in_h && !in_m {
-                                        tags.push("hlsl");
-                                    } else if !is_cb && in_m && !in_h {
-                                        tags.push("msl");
-                                    } else {
-                                        return None;
-                                    }
-                                }
-                                tags.sort();
-                                tags.dedup();
-                                Some(if tags.len() == 1 { tags[0] } else { "both" })
-                            });
-                            class = explained;
-                        }
-                    }
-                    let what = format!(
-                        "pipeline {}: bindings differ {} vs {}: only {}: {:?}; only {}: {:?}",
-                        i,
-                        t0.name(),
-                        t.name(),
-                        t0.name(),
-                        only0,
-                        t.name(),
-                        only1
-                    );
-                    match class {
-                        Some(c) => fails.push(format!("binding-name-reserved-in-one-target:{}: {}", c, what)),
-                        None => fails.push(what),
-                    }
-                }
-            }
-        }
-    }
+    compare_reports(&results, &b, &mut fails);
     // an unexplained difference is reported before an explained one
     fails.sort_by_key(|f| f.starts_with("binding-name-reserved-in-one-target:"));
     let _ = msl;
@@ -1247,6 +1255,188 @@ fn run_cross(seed: u64, variant: &str, out: &mut Out, hist: &mut Hist) {
     }
     let oracle = if fails.is_empty() { "ok".to_string() } else { format!("FAIL:{}", fails[0]) };
     out.case(&req, &obs, &oracle);
+}
+
+// ------------------------------------------------------------------------------------------------ C18.mode
+
+/// front-end verdict of one run: `Ok` = got past the front end (accepted, or refused by an exporter)
+fn front_of(v: &Verdict) -> Result<(), String> {
+    match v {
+        Verdict::Ok(_) => Ok(()),
+        Verdict::Err(e) if is_backend_error(e) => Ok(()),
+        Verdict::Err(e) => Err(e.clone()),
+        Verdict::Panic(p) => Err(format!("panic {}", p)),
+    }
+}
+
+/// `C18.mode <seed> <variant> <mode> <decls> <pipes> <verdicts>`: the program of `C18.cross <seed> <variant>` compiled for
+/// the four configurations (and MetalBytecode, oracle only) in one of the other two modes of compile(): `name:<P>`
+/// (`CompileArgs::pipeline_name`) or `none` (`CompileArgs::no_pipeline_mode()`: the module is exported without a selected
+/// pipeline; one output without stages).  `pipes` = the named pipeline (empty for `none`).
+///   observe : as C18.cross for the single output (`dx{|g_r0:Texture2d:1,..}` in no-pipeline mode)
+///   oracle  : the property in that mode: same front-end verdict and diagnostic on every configuration, the HLSL flavours
+///             succeed together, same number of outputs, same stage kinds / sizes, same pipeline state, same
+///             (binding name, kind, count) multiset with static samplers and buffer addresses put aside.
+/// `only`: answer that mode only (replay); otherwise no-pipeline mode and one pipeline picked by the seed.
+fn run_modes(seed: u64, variant: &str, only: Option<&str>, out: &mut Out, hist: &mut Hist) {
+    let Some(b) = build(seed, variant) else {
+        return;
+    };
+    if b.control {
+        return;
+    }
+    let mut files = vec![("main.rssl".to_string(), b.src.clone())];
+    files.extend(b.includes.iter().cloned());
+    let defs: Vec<(&str, &str)> = b.defines.iter().map(|(a, c)| (a.as_str(), c.as_str())).collect();
+    let validate = variant.split('~').next().unwrap_or("").ends_with("-vl");
+    // (name, request text) of every pipeline of the program
+    let all_pipes: Vec<(String, String)> = match &b.wide_pipes {
+        Some(wp) => wp.iter().map(|(n, st)| (n.clone(), format!("{}:{}", n, st))).collect(),
+        None => b
+            .prog
+            .pipes
+            .iter()
+            .map(|p| {
+                let st: Vec<String> = p
+                    .stages
+                    .iter()
+                    .map(|k| {
+                        let e = &b.prog.entries[*k];
+                        match e.threads {
+                            Some(t) => format!("{}={}@{}x{}x{}", e.stage, e.func.name, t.0, t.1, t.2),
+                            None => format!("{}={}", e.stage, e.func.name),
+                        }
+                    })
+                    .collect();
+                (p.name.clone(), format!("{}:{}", p.name, st.join(",")))
+            })
+            .collect(),
+    };
+    let mut modes: Vec<Mode> = Vec::new();
+    match only {
+        Some("none") => modes.push(Mode::NoPipeline),
+        Some(m) if m.starts_with("name:") => modes.push(Mode::Named(m["name:".len()..].to_string())),
+        Some(_) => return,
+        None => {
+            modes.push(Mode::NoPipeline);
+            if !all_pipes.is_empty() {
+                modes.push(Mode::Named(all_pipes[(seed as usize) % all_pipes.len()].0.clone()));
+            }
+        }
+    }
+    let decls: Vec<String> =
+        b.decls.iter().map(|d| format!("{}:{}:{}:{}", d.name, d.kind, d.len, if d.ss { 1 } else { 0 })).collect();
+    for mode in &modes {
+        let results: Vec<(Tgt, Verdict)> =
+            ALL_TARGETS.iter().map(|t| (*t, compile_info_vl(&files, &defs, *t, mode, validate))).collect();
+        let mtlb = compile_info_mtlb(&files, &defs, mode, validate);
+        let any_ok = results.iter().any(|(_, v)| matches!(v, Verdict::Ok(_)));
+        let (mode_s, pipe_names, pipes_s): (String, Vec<String>, String) = match mode {
+            Mode::Named(n) => {
+                let hit = all_pipes.iter().find(|(pn, _)| pn == n);
+                (
+                    format!("name:{}", n),
+                    vec![n.clone()],
+                    // stage lists read off the program text mean something only if the file is accepted
+                    if any_ok { hit.map(|(_, t)| t.clone()).unwrap_or_default() } else { String::new() },
+                )
+            }
+            _ => ("none".to_string(), Vec::new(), String::new()),
+        };
+        let verdicts: Vec<String> = results.iter().map(|(t, v)| format!("{}={}", t.name(), class(v))).collect();
+        let req = format!(
+            "C18.mode\t{}\t{}\t{}\t{}\t{}\t{}",
+            seed,
+            variant,
+            mode_s,
+            decls.join(";"),
+            pipes_s,
+            verdicts.join(",")
+        );
+        let no_pipe = matches!(mode, Mode::NoPipeline);
+        let obs: Vec<String> = results
+            .iter()
+            .map(|(t, v)| {
+                let s = show_target(t.name(), v, &pipe_names);
+                match v {
+                    // one output without stages: nothing before the `|`
+                    Verdict::Ok(ps) if no_pipe && ps.len() == 1 && ps[0].stages.is_empty() => {
+                        s.replacen(&format!("{}{{?[]|", t.name()), &format!("{}{{|", t.name()), 1)
+                    }
+                    _ => s,
+                }
+            })
+            .collect();
+        let obs = obs.join(" ");
+        // ------------------------------------------------------------ the property's own oracle, in this mode
+        let mut fails: Vec<String> = Vec::new();
+        let dx = &results[0].1;
+        let any_panic = results.iter().any(|(_, v)| matches!(v, Verdict::Panic(_))) || matches!(mtlb, Verdict::Panic(_));
+        if any_panic {
+            // a panic after an accepted front end is C08's business; the verdicts agree only if all die alike
+            hist.add(&format!("mode-panic:{}", if no_pipe { "none" } else { "named" }));
+            if matches!(dx, Verdict::Panic(_)) {
+                for (t, v) in &results[1..] {
+                    if v != dx {
+                        fails.push(format!("dx panics but {} does not do the same", t.name()));
+                    }
+                }
+            }
+        } else {
+            for (t, v) in &results[1..] {
+                if front_of(v) != front_of(dx) {
+                    fails.push(format!(
+                        "front-end verdict differs dx vs {}: {} / {}",
+                        t.name(),
+                        one_line(&format!("{:?}", front_of(dx)).chars().take(120).collect::<String>()),
+                        one_line(&format!("{:?}", front_of(v)).chars().take(120).collect::<String>())
+                    ));
+                }
+            }
+            let front5 = match &mtlb {
+                Verdict::Err(e) if is_toolchain_error(e) => Ok(()),
+                other => front_of(other),
+            };
+            if front5 != front_of(dx) {
+                fails.push(format!(
+                    "front-end verdict differs dx vs mtlb: {} / {}",
+                    one_line(&format!("{:?}", front_of(dx)).chars().take(120).collect::<String>()),
+                    one_line(&format!("{:?}", front5).chars().take(120).collect::<String>())
+                ));
+            }
+            if let (Verdict::Ok(m), Verdict::Ok(bc)) = (&results[3].1, &mtlb) {
+                let strip = |ps: &Vec<PipeInfo>| ps.iter().map(|p| (p.stages.clone(), p.state.clone(), p.bindings.clone())).collect::<Vec<_>>();
+                if strip(m) != strip(bc) {
+                    fails.push("msl and mtlb report different stages / pipeline state / bindings".to_string());
+                }
+            }
+        }
+        let okf = |v: &Verdict| matches!(v, Verdict::Ok(_));
+        if okf(dx) != okf(&results[1].1) || okf(dx) != okf(&results[2].1) {
+            fails.push(format!(
+                "HLSL flavours do not succeed together: dx={} vk={} vkba={}",
+                class(dx),
+                class(&results[1].1),
+                class(&results[2].1)
+            ));
+        }
+        compare_reports(&results, &b, &mut fails);
+        fails.sort_by_key(|f| f.starts_with("binding-name-reserved-in-one-target:"));
+        fails.dedup();
+        hist.add(&format!("mode={}", if no_pipe { "none" } else { "named" }));
+        hist.add(&format!("mode-verdicts:{}={}", if no_pipe { "none" } else { "named" }, verdicts.join(",")));
+        if no_pipe && any_ok {
+            let nb = results.iter().filter_map(|(_, v)| if let Verdict::Ok(p) = v { p.first().map(|x| x.bindings.len()) } else { None }).max().unwrap_or(0);
+            hist.add(&format!("mode-none-bindings={}", nb.min(9)));
+        }
+        let oracle = if fails.is_empty() { "ok".to_string() } else { format!("FAIL:mode {}: {}", mode_s, fails[0]) };
+        // keep the known-finding tag at the front of the detail
+        let oracle = match fails.first() {
+            Some(f) if f.starts_with("binding-name-reserved-in-one-target:") => format!("FAIL:{} (mode {})", f, mode_s),
+            _ => oracle,
+        };
+        out.case(&req, &obs, &oracle);
+    }
 }
 
 // ------------------------------------------------------------------------------------------------ C18.simplify
@@ -1784,6 +1974,11 @@ pub fn run(args: &Args, out: &mut Out) {
                         run_cross(seed, f[2], out, &mut hist);
                     }
                 }
+                "C18.mode" if f.len() >= 4 => {
+                    if let Ok(seed) = f[1].parse::<u64>() {
+                        run_modes(seed, f[2], Some(f[3]), out, &mut hist);
+                    }
+                }
                 "C18.simplify" if f.len() == 2 => run_simplify(f[1], out, &mut hist),
                 "C18.annot" if f.len() == 4 => run_annot(f[1] == "on", f[2], out, &mut hist),
                 "C18.defines" if f.len() == 2 => {
@@ -1818,6 +2013,7 @@ pub fn run(args: &Args, out: &mut Out) {
         let seed = rng.next() >> 16;
         let variant = VARIANTS[(i as usize) % VARIANTS.len()];
         run_cross(seed, variant, out, &mut hist);
+        run_modes(seed, variant, None, out, &mut hist);
     }
     // the wide programs of the C17 generator, every option combination by turns
     const WIDE_VARIANTS: &[&str] = &[
@@ -1828,6 +2024,7 @@ pub fn run(args: &Args, out: &mut Out) {
     for i in 0..nw {
         let seed = rng.next() >> 16;
         run_cross(seed, WIDE_VARIANTS[(i as usize) % WIDE_VARIANTS.len()], out, &mut hist);
+        run_modes(seed, WIDE_VARIANTS[(i as usize) % WIDE_VARIANTS.len()], None, out, &mut hist);
     }
     // the Metal-only rewrite of cbuffer blocks on accepted wide programs
     let ns = if args.n.is_some() { 0 } else if args.thorough() { 3000 } else { 300 };
